@@ -6,7 +6,7 @@ ALL_REGIONS = ['FE', 'MK', 'ST', 'IH', 'CT', 'SIG', 'AB', 'GC', 'BC', 'CN', 'AC'
 PROPS = {
     'C18': {
         'title': 'Behaviour does not depend on the identifiers chosen',
-        'level_text': "PARTIAL. Proof (C18.parseStates_rename, graph_rename, delta_rename; Lemmas/Rename.parse_ren): an injective renaming of state and superstate names commutes with parsing the states section (all nesting depths), with building the transition graph and with delta_M, so the declared relation of the renamed definition is the renamed relation; with C01-C16 (which hold for every validated machine whatever its names, under the no-collision side conditions N1/N2) the renamed machine behaves as the renamed specification. Clashes with identifiers used inside the generated code are rustc's name resolution, not a Lean statement: they are probed by T4 rename (adversarial identifier pool x context mode x dynamic, each against its neutral twin over the whole probe matrix) and by T2 on a corpus drawing names from that pool.",
+        'level_text': "PARTIAL. Proof (C18.parseStates_rename, graph_rename, delta_rename; Lemmas/Rename.parse_ren): an injective renaming of state and superstate names commutes with parsing the states section (all nesting depths), with building the transition graph and with delta_M, so the declared relation of the renamed definition is the renamed relation; with C01-C16 (which hold for every validated machine whatever its names, under the no-collision side conditions N1/N2) the renamed machine behaves as the renamed specification. Clashes with identifiers used inside the generated code are rustc's name resolution, not a Lean statement: they are probed by T4 rename (adversarial identifier pool x context mode x dynamic, each against its neutral twin over the whole probe matrix) and by T2 on a corpus drawing names from that pool. C18Twin.twin_behaves_alike transports the refinement theorem along the renaming: dispatched the same events under hooks answering alike, the renamed twin accepts exactly the same events and ends in the renamed state, for every history. A T1/T2 mismatch that disappears on the neutrally renamed twin of the definition is name-dependent and is consumed by this check whatever its region; the `collide` stream draws pairs of state names with the same snake_case form.",
         'level_note': 'Known finding F6 (state named C with generic context) is listed in known_findings.json and re-observed on every run. Ties: T2 all regions, T4 rename.',
         'modules': ['SMV.Props.C18', 'SMV.Props.C18Twin'],
         'regions': ['FE', 'MK', 'ST', 'IH', 'CT', 'SIG', 'SUB', 'EV', 'AS', 'DN', 'ID', 'EX'],
@@ -62,7 +62,7 @@ PROPS = {
     },
     'C01': {
         'title': 'Dynamic machine follows exactly the declared transition relation',
-        'level_text': "Proof (C01.follows_delta, handle_step, new_initial; Lemmas/Handle.handleProg_eq): for every validated machine, every finite sequence of declared events, payloads, hook environment and history, the wrapper created by new is after each returning handle in exactly the state obtained by folding delta_M over the accepted events; an event without transition from the current state is refused with InvalidTransition{from: current, event} without running a hook and leaves the wrapper unchanged; current_state() always names a declared leaf. delta_M is the machine's transition graph; that the graph is the declared relation with superstates expanded/resolved is C07.",
+        'level_text': "Proof (C01.follows_delta, handle_step, new_initial; Lemmas/Handle.handleProg_eq): for every validated machine, every finite sequence of declared events, payloads, hook environment and history, the wrapper created by new is after each returning handle in exactly the state obtained by folding delta_M over the accepted events; an event without transition from the current state is refused with InvalidTransition{from: current, event} without running a hook and leaves the wrapper unchanged; current_state() always names a declared leaf. delta_M is the machine's transition graph; that the graph is the declared relation with superstates expanded/resolved is C07. Refinement (Refine.refines_spec, step_refines): under hooks whose conditions answer by a truth assignment and whose callbacks let the call through (one environment per dispatch), every dispatch of every finite sequence of declared events returns, the accepted events are exactly those of the four-line abstract machine (edge defined, guards true, unless false) and the wrapper ends in its final state.",
         'level_note': 'Side conditions stated in the theorems: the machine validates, its graph is the one built from its events (what parse returns), PascalCase images of event names pairwise distinct (N1; the real code at the excluded point does not compile: duplicate enum variant). Ties: T1 (graph), T2 regions FE IH SIG CN CT EV AS DN HD CS, T3 walk/hier/abandon.',
         'modules': ['SMV.Props.C01', 'SMV.Props.Refine'],
         'regions': ['FE', 'IH', 'SIG', 'CN', 'CT', 'EV', 'AS', 'DN', 'HD', 'CS'],
@@ -71,7 +71,7 @@ PROPS = {
     },
     'C08': {
         'title': 'State data exists exactly while its state is current and starts fresh on entry',
-        'level_text': "Proof (C08.new_establishes, fresh_on_entry, ok_preserves, err_preserves, mutation_preserves, accessor_total, absent_elsewhere; C08Hist.step_preserves_inv, inv_along_history, read_iff_in_state: the invariant is preserved by every operation of the public API and therefore holds at every point of every history): the invariant 'slot of X present iff machine in X' is established by new (initial state's data = Default), re-established by every Ok of every generated method under arbitrary hooks (including in-place mutation by callbacks), kept by refusals and mutations; on every entry (self-transitions included) the target slot is Default and all others empty; hence the infallible accessor never panics.",
+        'level_text': "Proof (C08.new_establishes, fresh_on_entry, ok_preserves, err_preserves, mutation_preserves, accessor_total, absent_elsewhere; C08Hist.step_preserves_inv, inv_along_history, read_iff_in_state: the invariant is preserved by every operation of the public API and therefore holds at every point of every history): the invariant 'slot of X present iff machine in X' is established by new (initial state's data = Default), re-established by every Ok of every generated method under arbitrary hooks (including in-place mutation by callbacks), kept by refusals and mutations; on every entry (self-transitions included) the target slot is Default and all others empty; hence the infallible accessor never panics. RefineData.cell_refines/new_related: along every history of handle, reader, mutable accessor and setter the data of X is an abstract cell - absent outside X, Default on entry, latest stored value while in X.",
         'level_note': 'Side condition: storage field names pairwise distinct (N2; otherwise E0124). Data on superstates is modelled and token-checked; the invariant covers it too (never present). Ties: T2 regions CT CN SA XA, T3 walk/data families reading every slot after every step. History: the unchanged snapshot violated this at construction (F1), fixed by /repo commit e370adb.',
         'modules': ['SMV.Props.C08', 'SMV.Props.C08Hist', 'SMV.Props.RefineData'],
         'regions': ['CT', 'CN', 'SA', 'XA'],
@@ -99,7 +99,7 @@ PROPS = {
     },
     'C11': {
         'title': 'Dynamic data accessors and setters are gated by the current state',
-        'level_text': "Proof (C11.leaf_acc, read_gated, set_gated, read_after_set, read_after_write, set_other_slots, agrees_with_typed): for the data of a leaf state X the generated reader returns a value iff the wrapper is in X, the setter stores iff in X and otherwise changes nothing and returns WrongState{expected X, actual current state (or <extracted>), operation set_x_data}; what is set or written is what is read; the reader agrees with the typed accessor after conversion.",
+        'level_text': "Proof (C11.leaf_acc, read_gated, set_gated, read_after_set, read_after_write, set_other_slots, agrees_with_typed): for the data of a leaf state X the generated reader returns a value iff the wrapper is in X, the setter stores iff in X and otherwise changes nothing and returns WrongState{expected X, actual current state (or <extracted>), operation set_x_data}; what is set or written is what is read; the reader agrees with the typed accessor after conversion. RefineData.cell_refines lifts this to every history: each read returns the latest value stored since X was last entered (Default if none), nothing in any other state.",
         'level_note': 'With C08 (slot present iff in X) the reader returns Some iff in X. Ties: T2 regions DA AS, T3 walk/abandon.',
         'modules': ['SMV.Props.C11', 'SMV.Props.RefineData'],
         'regions': ['DA', 'AS'],
@@ -154,7 +154,7 @@ PROPS = {
         'design_ref': 'DESIGN.md §7 C03',
     },
     'C04': {
-        'level_text': "Proof (success_trace): whenever the generated method returns Ok, for any hook environment, the hooks invoked are exactly around-Before, guards, unless, before (source-typed machine), after (target-typed machine), around-AfterSuccess, each declared hook once in declaration order, each handed the machine's own context and the caller's payload; result typed in the target with the same context.",
+        'level_text': "Proof (success_trace): whenever the generated method returns Ok, for any hook environment, the hooks invoked are exactly around-Before, guards, unless, before (source-typed machine), after (target-typed machine), around-AfterSuccess, each declared hook once in declaration order, each handed the machine's own context and the caller's payload; result typed in the target with the same context. RefineTrace.step_trace restates it against the abstract machine at the level of handle: nothing is called without an edge, the documented list when it fires, the around Before stages and the conditions up to the first blocker when refused.",
         'level_note': "Order of event-level before transition-level hooks is the order of the edge's merged lists (edgesOfSource, tied by T1). Tie: T2 regions FE AB GC BC CN AC AA.",
         'title': 'Success path runs every hook exactly once in the documented order',
         'modules': ['SMV.Props.C04', 'SMV.Props.RefineTrace'],
@@ -172,7 +172,7 @@ PROPS = {
         'design_ref': 'DESIGN.md §7 C05',
     },
     'C06': {
-        'level_text': "Proof (before_abort, after_success_on_ok, no_after_success_on_err, ok_implies_after_all_proceed, after_abort_panics): a Before-stage abort at any position returns the receiver unchanged with the abort's kind, the carried name (callback name for invalid-transition) and the event; AfterSuccess stages run exactly once each, last, only on success; an AfterSuccess abort always panics with the generated message and never yields Ok/Err.",
+        'level_text': "Proof (before_abort, after_success_on_ok, no_after_success_on_err, ok_implies_after_all_proceed, after_abort_panics): a Before-stage abort at any position returns the receiver unchanged with the abort's kind, the carried name (callback name for invalid-transition) and the event; AfterSuccess stages run exactly once each, last, only on success; an AfterSuccess abort always panics with the generated message and never yields Ok/Err. RefineVeto.refines_spec_veto: along every history the wrapper is the abstract machine in which an event fires iff there is an edge, no around callback of the edge vetoes (with any error kind), guards true, unless false.",
         'level_note': 'Tie: T2 regions AB AA (panic literal included).',
         'title': 'Around callbacks can veto before the transition and are never swallowed after',
         'modules': ['SMV.Props.C06', 'SMV.Props.RefineVeto'],
